@@ -39,7 +39,7 @@ structure InvX (ex : Option Nat) (s : State) : Prop where
   entryTs : ∀ e ∈ s.queued, (e.2, e.1) ∈ s.stored
   deqStored : ∀ d ∈ s.deq, ∃ ts, (d.1, ts) ∈ s.stored ∧ (d.2 ≠ .flush → ts ≤ s.now)
   sorted : Sorted s.queued
-  timer : ∀ tm, s.asleep = some tm → s.wake = true ∨ ∀ e ∈ s.queued, ∃ u, tm = some u ∧ u ≤ e.1
+  timer : ∀ tm, s.asleep = some tm → s.wake = true ∨ s.poked = true ∨ ∀ e ∈ s.queued, ∃ u, tm = some u ∧ u ≤ e.1
   tracked : ∀ id ∈ s.known, id ∈ sIds s → ex = some id ∨ id ∈ s.written ∨ id ∈ s.active ∨ id ∈ dIds s ∨ id ∈ qIds s
   early : ∀ x ∈ s.log, x.2.2.2 ≠ .flush → x.2.2.1 ≤ x.2.1
   oneFlight : s.inflight.Nodup
@@ -614,8 +614,7 @@ theorem dIds_append (s : State) (l : List (Nat × Nat)) (c : Cause) :
   simp [dIds, List.map_append, List.map_map, Function.comp_def]
 
 theorem inv_flush (s : State) (h : Inv s) :
-    Inv { s with deq := s.deq ++ s.queued.map (fun e => (e.2, Cause.flush)), queued := [], queuedIds := [],
-                 poked := s.asleep.isSome } := by
+    Inv { s with deq := s.deq ++ s.queued.map (fun e => (e.2, Cause.flush)), queued := [], queuedIds := [] } := by
   have hd : ∀ x, x ∈ (s.deq ++ s.queued.map (fun e => (e.2, Cause.flush))).map (·.1) ↔ x ∈ dIds s ∨ x ∈ qIds s := by
     intro x; rw [dIds_append, List.mem_append]; rfl
   exact {
@@ -655,7 +654,7 @@ theorem inv_flush (s : State) (h : Inv s) :
       · obtain ⟨e, he, rfl⟩ := List.mem_map.mp t
         exact ⟨e.1, h.entryTs e he, fun hc => absurd rfl hc⟩
     sorted := by simp [Sorted]
-    timer := fun tm _ => Or.inr (fun e he => by simp at he)
+    timer := fun tm _ => Or.inr (Or.inr (fun e he => by simp at he))
     tracked := fun x hx hxs => by
       rcases h.tracked x hx hxs with t | t | t | t | t
       · simp at t
@@ -667,9 +666,9 @@ theorem inv_flush (s : State) (h : Inv s) :
 
 def turned (s : State) (due rest : List (Nat × Nat)) (Q : List Nat) : State :=
   { s with queued := rest, queuedIds := Q, deq := s.deq ++ due.map (fun e => (e.2, Cause.sched)),
-           asleep := some (rest.head?.map (·.1)), wake := false, poked := false }
+           asleep := none, turn := true, wake := if s.asleep.isSome then false else s.wake, poked := false }
 
-/-- One turn of the scheduler loop, stated for any split of the timetable into a due prefix and the rest. -/
+/-- The scheduler loop's `_check_ready`, stated for any split of the timetable into a due prefix and the rest. -/
 theorem inv_turn (s : State) (due rest : List (Nat × Nat)) (Q : List Nat) (h : Inv s)
     (hsplit : s.queued = due ++ rest) (hdue : ∀ e ∈ due, e.1 ≤ s.now) (hQ : ∀ x, x ∈ Q ↔ x ∈ rest.map (·.2)) :
     Inv (turned s due rest Q) := by
@@ -724,15 +723,8 @@ theorem inv_turn (s : State) (due rest : List (Nat × Nat)) (Q : List Nat) (h : 
         exact ⟨e.1, h.entryTs e (by rw [hsplit]; exact List.mem_append_left _ he), fun _ => hdue e he⟩
     sorted := hsorted
     timer := fun tm htm => by
-      right
-      intro e he
-      have htm : some (rest.head?.map (·.1)) = some tm := htm
-      simp only [Option.some.injEq] at htm
-      have he : e ∈ rest := he
-      cases hh : rest.head? with
-      | none => cases rest <;> simp at hh he
-      | some x =>
-        refine ⟨x.1, by rw [← htm, hh]; rfl, head_le_of_sorted hsorted hh he⟩
+      have htm : (none : Option (Option Nat)) = some tm := htm
+      cases htm
     tracked := fun x hx hxs => by
       rcases h.tracked x hx hxs with t | t | t | t | t
       · simp at t
@@ -819,7 +811,7 @@ theorem inv_dequeue (s : State) (id : Nat) (c : Cause) (h : Inv s) (hm : (id, c)
   refine ⟨inv_handOff _ id c h1 hna hnq (fun hc => ((hd id).mp hc).2 rfl) hw hk ⟨ts, hst, hle⟩, ?_, hna⟩
   rw [tsOf_some h.sNodup hst]; rfl
 
-theorem inv_schedTurn (s : State) (h : Inv s) : Inv (schedTurn s) := by
+theorem inv_schedCut (s : State) (h : Inv s) : Inv (schedCut s) := by
   have hsplit : s.queued = s.queued.takeWhile (fun e => decide (e.1 ≤ s.now)) ++ s.queued.dropWhile (fun e => decide (e.1 ≤ s.now)) :=
     (List.takeWhile_append_dropWhile).symm
   have hdue : ∀ e ∈ s.queued.takeWhile (fun e => decide (e.1 ≤ s.now)), e.1 ≤ s.now := by
@@ -829,15 +821,49 @@ theorem inv_schedTurn (s : State) (h : Inv s) : Inv (schedTurn s) := by
     have hrest : s.queued.dropWhile (fun e => decide (e.1 ≤ s.now)) = s.queued := by
       have := hsplit; rw [hnil, List.nil_append] at this; exact this.symm
     have := inv_turn s [] s.queued s.queuedIds h (by simp) (by simp) h.qids
-    have he : schedTurn s = turned s [] s.queued s.queuedIds := by
-      simp only [schedTurn, turned, hemp, if_true, hrest, List.map_nil, List.append_nil]
+    have he : schedCut s = turned s [] s.queued s.queuedIds := by
+      simp only [schedCut, turned, hemp, if_true, hrest, List.map_nil, List.append_nil]
     rw [he]; exact this
   · have := inv_turn s _ _ ((s.queued.dropWhile (fun e => decide (e.1 ≤ s.now))).map (·.2)) h hsplit hdue (fun x => Iff.rfl)
-    have he : schedTurn s = turned s (s.queued.takeWhile (fun e => decide (e.1 ≤ s.now)))
+    have he : schedCut s = turned s (s.queued.takeWhile (fun e => decide (e.1 ≤ s.now)))
         (s.queued.dropWhile (fun e => decide (e.1 ≤ s.now))) ((s.queued.dropWhile (fun e => decide (e.1 ≤ s.now))).map (·.2)) := by
-      simp only [schedTurn, turned, hemp, Bool.false_eq_true, if_false]
+      simp only [schedCut, turned, hemp, Bool.false_eq_true, if_false]
     rw [he]; exact this
 
+/-- `_wait_ready`: the loop goes to sleep until the first remaining entry (the timetable is sorted), for
+    ever when there is none, or not at all when the first entry is already due. -/
+theorem inv_schedSleep (s : State) (h : Inv s) : Inv (schedSleep s) := by
+  have base : ∀ a : Option (Option Nat), (∀ tm, a = some tm → s.wake = true ∨ s.poked = true ∨ ∀ e ∈ s.queued, ∃ u, tm = some u ∧ u ≤ e.1) →
+      Inv { s with asleep := a, turn := false } := fun a ha => {
+    sNodup := h.sNodup, known := h.known, written := h.written, act := h.act, excl := h.excl, actFree := h.actFree
+    actStored := h.actStored, nodup := h.nodup, qids := h.qids, entryTs := h.entryTs, deqStored := h.deqStored
+    sorted := h.sorted, timer := ha, tracked := h.tracked, early := h.early, oneFlight := h.oneFlight }
+  unfold schedSleep
+  cases hh : s.queued.head? with
+  | none =>
+    simp only
+    refine base _ (fun tm htm => Or.inr (Or.inr (fun e he => ?_)))
+    cases hq : s.queued with
+    | nil => rw [hq] at he; cases he
+    | cons x xs => rw [hq] at hh; simp at hh
+  | some x =>
+    simp only
+    split
+    · refine base _ (fun tm htm => Or.inr (Or.inr (fun e he => ?_)))
+      simp only [Option.some.injEq] at htm
+      exact ⟨x.1, htm.symm, head_le_of_sorted h.sorted hh he⟩
+    · exact base _ (fun tm htm => by cases htm)
+
+
+/-- `flush()` begins: the flag ends down, but a scheduler that was waiting has been woken. -/
+theorem inv_poke (s : State) (h : Inv s) : Inv { s with wake := false, poked := s.poked || s.asleep.isSome } := {
+    sNodup := h.sNodup, known := h.known, written := h.written, act := h.act, excl := h.excl, actFree := h.actFree
+    actStored := h.actStored, nodup := h.nodup, qids := h.qids, entryTs := h.entryTs, deqStored := h.deqStored
+    sorted := h.sorted
+    timer := fun tm htm => by
+      have htm' : s.asleep = some tm := htm
+      exact Or.inr (Or.inl (by simp [htm']))
+    tracked := h.tracked, early := h.early, oneFlight := h.oneFlight }
 
 /-- **The invariant is preserved by every calm step.** -/
 theorem inv_step (s s' : State) (l : Label) (h : Inv s) (hc : calm s l) (hs : step s l = some s') : Inv s' := by
@@ -882,10 +908,13 @@ theorem inv_step (s s' : State) (l : Label) (h : Inv s) (hc : calm s l) (hs : st
   | sched =>
     simp only [step] at hs
     split at hs
-    · simp only [Option.some.injEq] at hs; subst hs; exact inv_schedTurn s h
+    · simp only [Option.some.injEq] at hs; subst hs; exact inv_schedCut s h
     · simp at hs
-  | spurious =>
-    simp only [step, Option.some.injEq] at hs; subst hs; exact inv_schedTurn s h
+  | sleep =>
+    simp only [step] at hs
+    split at hs
+    · simp only [Option.some.injEq] at hs; subst hs; exact inv_schedSleep s h
+    · simp at hs
   | dequeue id c =>
     simp only [step] at hs
     split at hs
@@ -944,6 +973,9 @@ theorem inv_step (s s' : State) (l : Label) (h : Inv s) (hc : calm s l) (hs : st
       simp only [Option.some.injEq] at hs; subst hs
       exact inv_remove s id h (by simpa using hm)
     · simp at hs
+  | poke =>
+    simp only [step, Option.some.injEq] at hs; subst hs
+    exact inv_poke s h
   | flush =>
     simp only [step, Option.some.injEq] at hs; subst hs
     exact inv_flush s h
@@ -963,30 +995,51 @@ theorem never_early {pre : List (Nat × Nat)} (hpre : (pre.map (·.1)).Nodup) {s
     (id t due : Nat) (c : Cause) (hl : (id, t, due, c) ∈ s.log) (hc : c ≠ .flush) : due ≤ t :=
   (reach_inv hpre hr).early (id, t, due, c) hl hc
 
-/-- **Attempted once due.** If a timetable entry is due, the scheduler loop can take its turn (its
-    timer has run out, or it has been woken, or it is not asleep), and that turn creates the
-    `_dequeue` task of the message. -/
+/-- **Attempted once due.** If a timetable entry is due: when the scheduler loop is not in the middle
+    of a turn it can take one (its timer has run out, or it has been woken, or it is not asleep), and
+    that turn creates the `_dequeue` task of the message; when it is in the middle of a turn (its
+    spawns may be waiting for a slot of a bounded pool) it can finish the turn, does not go to sleep
+    (the entry is due by the clock it reads then) and is back in the first case with the entry still
+    in the timetable. -/
 theorem due_is_dispatched {pre : List (Nat × Nat)} (hpre : (pre.map (·.1)).Nodup) {s : State} (hr : Reach (start pre) s)
     (t id : Nat) (he : (t, id) ∈ s.queued) (hdue : t ≤ s.now) :
-    schedEnabled s = true ∧ (id, Cause.sched) ∈ (schedTurn s).deq := by
+    (s.turn = false → ∃ s', step s .sched = some s' ∧ (id, Cause.sched) ∈ s'.deq) ∧
+    (s.turn = true → ∃ s', step s .sleep = some s' ∧ s'.turn = false ∧ s'.asleep = none ∧ (t, id) ∈ s'.queued ∧ s'.now = s.now) := by
   have h := reach_inv hpre hr
   constructor
-  · unfold schedEnabled
-    cases ha : s.asleep with
-    | none => rfl
-    | some tm =>
-      rcases h.timer tm ha with hw | hall
-      · cases tm <;> simp [hw]
-      · obtain ⟨u, rfl, hu⟩ := hall (t, id) he
-        have : u ≤ s.now := Nat.le_trans hu hdue
-        simp [this]
-  · have hmem := due_mem_takeWhile h.sorted he hdue
+  · intro hturn
+    have hen : schedEnabled s = true := by
+      unfold schedEnabled
+      cases ha : s.asleep with
+      | none => rfl
+      | some tm =>
+        rcases h.timer tm ha with hw | hw | hall
+        · cases tm <;> simp [hw]
+        · cases tm <;> simp [hw]
+        · obtain ⟨u, rfl, hu⟩ := hall (t, id) he
+          have : u ≤ s.now := Nat.le_trans hu hdue
+          simp [this]
+    refine ⟨schedCut s, by simp [step, hturn, hen], ?_⟩
+    have hmem := due_mem_takeWhile h.sorted he hdue
     have hne : (s.queued.takeWhile (fun e => decide (e.1 ≤ s.now))).isEmpty = false := by
       cases hh : s.queued.takeWhile (fun e => decide (e.1 ≤ s.now)) with
       | nil => rw [hh] at hmem; simp at hmem
       | cons _ _ => rfl
-    simp only [schedTurn, hne, Bool.false_eq_true, if_false]
+    simp only [schedCut, hne, Bool.false_eq_true, if_false]
     exact List.mem_append_right _ (List.mem_map.mpr ⟨(t, id), hmem, rfl⟩)
+  · intro hturn
+    refine ⟨schedSleep s, by simp [step, hturn], ?_⟩
+    unfold schedSleep
+    cases hh : s.queued.head? with
+    | none =>
+      cases hq : s.queued with
+      | nil => rw [hq] at he; cases he
+      | cons x xs => rw [hq] at hh; simp at hh
+    | some x =>
+      have hx : x.1 ≤ t := head_le_of_sorted h.sorted hh he
+      have : ¬ s.now < x.1 := by omega
+      simp only [this, if_false]
+      exact ⟨trivial, trivial, he, trivial⟩
 
 /-- Where a stored message the queue has been told about is. -/
 inductive Whereabouts (s : State) (id : Nat) : Prop
@@ -995,8 +1048,8 @@ inductive Whereabouts (s : State) (id : Nat) : Prop
   | finishing : (id ∈ s.retry ∨ id ∈ s.retrying ∨ id ∈ s.rem) → Whereabouts s id   -- _retry_later / _remove_stored is due to run or running
   | dequeuing : id ∈ dIds s → Whereabouts s id                      -- a _dequeue task is pending
   | scheduled (t : Nat) : (t, id) ∈ s.queued →
-      (s.asleep = none ∨ s.wake = true ∨ ∃ u, s.asleep = some (some u) ∧ u ≤ t) → Whereabouts s id
-                                                                    -- in the timetable, and the loop wakes by then
+      (s.asleep = none ∨ s.wake = true ∨ s.poked = true ∨ ∃ u, s.asleep = some (some u) ∧ u ≤ t) → Whereabouts s id
+                                                                    -- in the timetable, and the loop is awake, has been woken, or wakes by then
 
 /-- **Never forgotten.** In every reachable state each stored message the queue knows about
     (enqueued here, loaded, announced, re-queued after a failure or a flush) is in flight, has a
@@ -1019,10 +1072,11 @@ theorem never_forgotten {pre : List (Nat × Nat)} (hpre : (pre.map (·.1)).Nodup
     cases ha : s.asleep with
     | none => exact Or.inl rfl
     | some tm =>
-      rcases h.timer tm ha with hw | hall
+      rcases h.timer tm ha with hw | hw | hall
       · exact Or.inr (Or.inl hw)
+      · exact Or.inr (Or.inr (Or.inl hw))
       · obtain ⟨u, rfl, hu⟩ := hall e he
-        exact Or.inr (Or.inr ⟨u, rfl, hu⟩)
+        exact Or.inr (Or.inr (Or.inr ⟨u, rfl, hu⟩))
 
 /-- **flush() never waits**: it is a single step that is always enabled, and after it every
     message that was waiting has a `_dequeue` task of its own; the timetable and its id set are empty
@@ -1062,12 +1116,30 @@ theorem never_early_needs_calm :
   decide
 
 /-! Non-vacuity: a calm run with a retry, a flush and a second failure. -/
-example : Reach (start []) ((run (start []) [.sched, .write 1 0, .activate 1, .done 1 false, .retry 1 (some 5), .requeue 1, .sched,
-    .flush, .dequeue 1 .flush, .done 1 false, .retry 1 (some 7), .requeue 1, .tick 7, .sched]).getD {}) := by
-  refine .step (l := .sched) (.step (l := .tick 7) (.step (l := .requeue 1) (.step (l := .retry 1 (some 7)) (.step (l := .done 1 false)
-    (.step (l := .dequeue 1 .flush) (.step (l := .flush) (.step (l := .sched) (.step (l := .requeue 1) (.step (l := .retry 1 (some 5))
-    (.step (l := .done 1 false) (.step (l := .activate 1) (.step (l := .write 1 0) (.step (l := .sched) .init
-    trivial rfl) trivial rfl) trivial rfl) trivial rfl) trivial rfl) trivial rfl) trivial rfl) trivial rfl) trivial rfl)
-    trivial rfl) trivial rfl) trivial rfl) trivial rfl) trivial rfl
+def demoTrace : List Label := [.sched, .sleep, .write 1 0, .activate 1, .done 1 false, .retry 1 (some 5), .requeue 1, .sched, .sleep,
+    .flush, .dequeue 1 .flush, .done 1 false, .retry 1 (some 7), .requeue 1, .tick 7, .sched, .sleep]
+
+def noAnnounce : Label → Bool
+  | .announce _ _ => false
+  | _ => true
+
+/-- A run of the executable model without announcements is a calm run. -/
+theorem reach_run (s0 : State) (ls : List Label) (s1 : State) (hr : Reach s0 s1) (s2 : State) (h : run s1 ls = some s2)
+    (hc : ls.all noAnnounce = true) : Reach s0 s2 := by
+  induction ls generalizing s1 with
+  | nil => simp [run] at h; exact h ▸ hr
+  | cons l ls ih =>
+    simp only [List.all_cons, Bool.and_eq_true] at hc
+    simp only [run] at h
+    cases hs : step s1 l with
+    | none => rw [hs] at h; cases h
+    | some s' =>
+      rw [hs] at h
+      refine ih s' (.step hr ?_ hs) h hc.2
+      cases l <;> first | trivial | (simp [noAnnounce] at hc)
+
+example : ∃ s, run (start []) demoTrace = some s ∧ Reach (start []) s ∧ s.log.length = 2 ∧ s.turn = false := by
+  refine ⟨(run (start []) demoTrace).getD {}, by decide, ?_, by decide, by decide⟩
+  exact reach_run _ demoTrace _ .init _ (by decide) (by decide)
 
 end Slimta.C12
